@@ -614,6 +614,30 @@ func c17Judge(tb vt.TB, env *c17Env, cs c17Case) (v c17Verdict) {
 			}
 		}
 	}
+	// an archive that verifies, reached through a link under another file name (its provenance copied next to the
+	// link): the provenance does not list that name, so every entry point that verifies files on disk must refuse
+	if base.OK && !cs.NoProv {
+		linkDir := env.newDir()
+		defer os.RemoveAll(linkDir)
+		other := cs
+		other.Name = "zz-" + cs.Name
+		if err := os.Symlink(path, filepath.Join(linkDir, other.Name)); err != nil {
+			tb.Fatalf("harness: %v", err)
+		}
+		if err := os.WriteFile(filepath.Join(linkDir, other.Name+".prov"), cs.Prov, 0o644); err != nil {
+			tb.Fatalf("harness: %v", err)
+		}
+		for _, e := range []string{"verifychart", "action-verify", "locate-verify"} {
+			if !c17Has(entries, e) {
+				continue
+			}
+			if o := c17RunEntry(tb, env, e, linkDir, &other); o.OK {
+				if fail("C17:accepted/file-name-absent-from-provenance/reached-through-a-link/"+e, e, o) {
+					return v
+				}
+			}
+		}
+	}
 	return v
 }
 
@@ -1018,7 +1042,7 @@ func c17MergeSigPackets(t *rapid.T, a, b []byte, aFirst bool) []byte {
 // tests
 
 func c17Extras() {
-	evid.Extra("rule", "case = small generated chart (optionally with a multi-line annotation containing '...' / '---' lines) saved with chartutil.Save, signed by Helm (Signatory.ClearSign via entity / key files, or action.Package --sign) with one of 4 fixed keys "+
+	evid.Extra("rule", "(every archive that verifies is also reached through a symbolic link under another file name, with its provenance copied next to the link: the file-based entry points must refuse) case = small generated chart (optionally with a multi-line annotation containing '...' / '---' lines) saved with chartutil.Save, signed by Helm (Signatory.ClearSign via entity / key files, or action.Package --sign) with one of 4 fixed keys "+
 		"(3 committed RSA-2048 pairs, one sharing its user id with another, + the repo's test key), then ONE mutation class: archive flip/truncate/append/substitute; attacker edits "+
 		"(digest patched, unsigned prefix/suffix listing the new digest, extra block by another key); provenance bit flips per region, truncation, zero-length file, missing file, digest digit, file name, metadata edit; "+
 		"non-semantic edits (trailing blanks, CRLF, armor comment, Hash header); doubled blocks; renamed archive; library-crafted messages (right/wrong/one-digit-off digest, wrong name, two files, metadata mismatch, two signature packets); "+
